@@ -277,9 +277,10 @@ def deepCopyPairs : Nat â†’ List (Key Ã— Val F) â†’ St F â†’ Option (List (Key Ã
     | Option.none => Option.none
 end
 
-/-- fuel for the auxiliary traversals (rendering, equality, deep copy): they are
-bounded by the size of the heap unless a value is cyclic -/
-def auxFuel (st : St F) : Nat := 64 + 8 * st.heap.size
+/-- fuel for the auxiliary traversals (rendering, equality, deep copy, `same`): they are
+bounded by the size of the values unless a value is cyclic (possible only through
+`any`-typed containers); ten million steps is beyond every value the harness builds. -/
+def auxFuel (_st : St F) : Nat := 10000000
 
 def idxErr : IdxErr â†’ Outcome
   | .indexValue => .panic .indexValue
